@@ -206,9 +206,12 @@ C13_OrderAllStep(job, jobN, podsN) == (job.ex /\ ~jobN.ex) => ~\E p \in Mine(pod
 \* was over in truth (the recorded finish time can move later when the write that records it is retried)
 \* or for the finish time an up-to-date pass computes once the Job is over: the latest finish time of its tasks
 \* (lastFin, ground truth), else the kill time
-C13_TTLNotEarlyStep(cfg, job, jobN, ttlAt, userDeleted, doneAt, lastFin) ==
+\* viewKill: the kill timestamp in the cached Job of the pass that issued the delete (0 = none). A user's later edit of a
+\* kill timestamp that had not passed (knowledge lag, DESIGN 3.7) does not make that delete early.
+C13_TTLNotEarlyStep(cfg, job, jobN, ttlAt, userDeleted, doneAt, lastFin, viewKill) ==
     (job.ex /\ ~jobN.ex /\ ttlAt # 0 /\ ~userDeleted) =>
         \/ (job.kind = "Finished" /\ ttlAt >= job.fints + cfg.ttl)
+        \/ (viewKill # 0 /\ viewKill # job.kill /\ lastFin = 0 /\ ttlAt >= viewKill + cfg.ttl)
         \/ (doneAt # 0 /\ ttlAt >= doneAt + cfg.ttl)
         \/ (doneAt # 0 /\ lastFin # 0 /\ ttlAt >= lastFin + cfg.ttl)
         \/ (doneAt # 0 /\ lastFin = 0 /\ job.kill # 0 /\ ttlAt >= job.kill + cfg.ttl)
